@@ -478,4 +478,29 @@ theorem establish_exits_release_in_source :
         !(e.calls.any (fun c => c == "reg.MarkAvailable" || c == "originalReg.MarkAvailable")))).map (·.ord)) = [0, 4, 6] ∧
     (Exits.exits.filter (fun e => e.fn == "establishRegion")).length = 10 := by decide
 
+
+/-- In a list of calls in source order: every `c.regions.put(reg)` has a `reg.MarkUnavailable`
+before it with no `reg.MarkAvailable` in between. -/
+def markedBeforePut : Bool → List String → Bool
+  | _, [] => true
+  | marked, c :: rest =>
+    if c == "reg.MarkUnavailable" then markedBeforePut true rest
+    else if c == "reg.MarkAvailable" then markedBeforePut false rest
+    else if c == "c.regions.put(reg)" then marked && markedBeforePut marked rest
+    else markedBeforePut marked rest
+
+/-- Regenerated from rpc.go: the three functions that publish a freshly parsed region object
+(`findRegion`, `findAllRegions`, `establishRegion`) mark it unavailable *before* `regions.put`
+makes it reachable.  This is what lets the model treat "create, mark, publish, start the
+establisher" as one step (`Action.findRegion`, `LookupRes.newReplaced`): while the object is
+private nobody else's `MarkUnavailable` can return true for it, so the goroutine started afterwards
+is the only establisher (`token_invariant`).  Marking after publishing would allow a second
+establisher, whose `MarkAvailable` is the `close(nil)` excluded by `mark_available_never_faults`. -/
+theorem published_regions_are_marked_first_in_source :
+    Exits.publishSites.map (·.1) = ["findRegion", "findAllRegions", "establishRegion"] ∧
+    (∀ p ∈ Exits.publishSites, p.2.contains "c.regions.put(reg)" = true ∧ markedBeforePut false p.2 = true) := by
+  decide
+
+example : markedBeforePut false ["c.lookupRegion", "c.regions.put(reg)", "reg.MarkUnavailable"] = false := by decide
+
 end GV.Avail
